@@ -48,7 +48,19 @@ RULE = ("streams (all in both tiers): 'cpd' random CPDs with 0..4 parents, cardi
         "float32, so torch cases round every input to float32 first (the model gets that exact value; 'mag' tables are "
         "numpy-only; torch reports kernel errors as RuntimeError/TypeError where numpy raises ValueError/IndexError - "
         "treated as the same rejection).  Comparisons are RELATIVE (1e-9) to the model's exact value; an exact zero must be "
-        "exact.  Checklist classes that cannot apply: pandas frames (no DataFrame enters or leaves the anchored API); "
+        "exact.  Round-5 classes: (N) every name / state / tuple handed to reorder_parents, marginalize, reduce, "
+        "get_state_probability, get_cpds, get_cardinality is rebuilt at run time (equal, not identical; variable names "
+        "'long': long strings, ints above 256, nested tuples; state ints shifted by 300 / 70000); (O) marginalize gets a "
+        "list / tuple / set / ndarray of names, reduce a list / tuple of tuples, the constructor lists / tuples / ndarrays "
+        "for evidence, evidence_card, values and tuples for state-name lists (reorder_parents documents a list only and "
+        "rejects a tuple; a generator handed to marginalize / reduce is silently ignored on the unchanged tree - reported, "
+        "not generated); (P) variables with 257 / 300 states as child or parent incl. a reduce to a state number >= 256, "
+        "chains / trees with 9 and 12 nodes, CPDs with 9..11 axes; (Q) 'typed' tables with 2-3 decimals whose column sums "
+        "are within 0.001..0.008 of one, in the CPD, session and network streams; (R) the streams cross inplace x "
+        "show_warnings x container type x backend x state-name style x table mode at random.  'bn' cardinality faults are "
+        "combined with every state-name situation (default names, names of the declared length, the parent's own list as "
+        "with one shared state_names dict, the parent's own CPD carrying a list of the declared length) and state-name "
+        "faults with lists of another length under a correct cardinality.  Checklist classes that cannot apply: pandas frames (no DataFrame enters or leaves the anchored API); "
         "in-place edits of an INNER state-name list (copy(), to_factor() and the constructor copy the state_names dict "
         "shallowly on the unchanged tree, and get_values()/the array returned by reorder_parents is a view of cpd.values: "
         "these are reported observations, the streams edit top-level entries and returned arrays only through the API); "
@@ -2066,6 +2078,11 @@ def run_session(case, drv):
     tags = ["session parents=%d" % k]
     cur = list(ev)
     ops, mops = [], []
+    if case.get("mode") == "big" and pc and pc[0] > 256 and rng.random() < 0.75:
+        s_ = esn[1][rng.randint(256, pc[0] - 1)]      # a state number that does not fit in 8 bits
+        ops.append(("reduce", [(1, s_)]))
+        mops.append([2, [[1, N.st(s_)]]])
+        cur = [u for u in cur if u != 1]
     for _ in range(6):
         kind = rng.choice(["reorder", "marginalize", "reduce", "normalize", "copy", "reduce", "marginalize", "rejected"])
         if kind == "reorder" and cur:
